@@ -181,4 +181,6 @@ def check(ctx, R):
     from . import c16 as _c16, c05 as _c05
     R.run("C13.h", lambda R, c: _c16.rule_e(R, c, "C13.h"), ctx)
     R.run("C13.i", lambda R, c: _c05.rule_e(R, c, "C13.i"), ctx)
+    from . import shared as _sh
+    R.run("C13.j", lambda R, c: _sh.encoder_sinks(R, c, "C13.j"), ctx)
     return {}
